@@ -51,6 +51,13 @@ Definition vehicle_write (v : vehicle) : res bytes :=
 (* Display for built-ins (Mod prints {:06X}, Unknown prints "Unknown"; not modelled further) *)
 Definition vehicle_display (i : N) : option bytes := assoc i vehicle_display_tab.
 
+(* Vehicle::is_mod / Vehicle::is_builtin: each is a test for the Mod variant or its negation; the translator reads which
+   (Gen/VehicleTab.v: value on a mod, value on anything else) *)
+Definition is_mod (v : vehicle) : bool :=
+  match v with Mod _ => fst vehicle_is_mod_tab | _ => snd vehicle_is_mod_tab end.
+Definition is_builtin (v : vehicle) : bool :=
+  match v with Mod _ => fst vehicle_is_builtin_tab | _ => snd vehicle_is_builtin_tab end.
+
 (* ---- the InSim v9 rule, stated independently of the match arms ---- *)
 Definition zeros4 : bytes := [0; 0; 0; 0].
 
